@@ -257,23 +257,39 @@ def main():
     for h in harn:
         by_group.setdefault(h["group"], []).append(h)
     order = sorted(by_group)
-    # groups run one after the other, each with all cores (cargo kani -j)
+    # groups (different kani flags => separate cargo-kani invocations, own target dirs) run side by
+    # side; the -j budget is split in proportion to their harness counts
+    import threading
+    total = sum(len(by_group[g]) for g in order) or 1
+    budget = {}
     for gname in order:
+        budget[gname] = max(1, min(len(by_group[gname]), int(round(a.jobs * len(by_group[gname]) / total))))
+    lock = threading.Lock()
+
+    def run_group(gname):
         group = plan["groups"][gname]
         names = [h["name"] for h in by_group[gname]]
         # VERIF_SEED only permutes scheduling order
         if seed:
             import random
             random.Random(seed).shuffle(names)
-        log("[%s] group %s: %d harnesses (timeout %ds each, -j %d)" % (pid, gname, len(names), group["timeout_s"], a.jobs))
-        res, wall, tail = kani_group(pid, gname, group, names, min(a.jobs, group.get("max_jobs", a.jobs)), workdir)
+        jobs = min(budget[gname], group.get("max_jobs", a.jobs))
+        log("[%s] group %s: %d harnesses (timeout %ds each, -j %d)" % (pid, gname, len(names), group["timeout_s"], jobs))
+        res, wall, tail = kani_group(pid, gname, group, names, jobs, workdir)
         log("[%s] group %s done in %.0fs" % (pid, gname, wall))
-        for n in names:
-            results[n] = res[n]
-            results[n]["group"] = gname
+        with lock:
+            for n in names:
+                results[n] = res[n]
+                results[n]["group"] = gname
         bad = [n for n in names if res[n]["status"] in ("tool_error",)]
         if bad:
             log(tail)
+
+    threads = [threading.Thread(target=run_group, args=(g,)) for g in order]
+    for t in threads:
+        t.start()
+    for t in threads:
+        t.join()
 
     # ---- engine M ----
     if plan.get("smt"):
